@@ -1930,6 +1930,83 @@ impl Connection {
     }
 }
 
+// Verification hooks (off unless built with --cfg nlnetlabs_routecore_verif).
+#[cfg(nlnetlabs_routecore_verif)]
+impl Connection {
+    /// Appends raw bytes to the receive buffer, as a socket read would.
+    pub fn verif_push_bytes(&mut self, bytes: &[u8]) {
+        self.buffer.extend_from_slice(bytes);
+    }
+    /// Invokes the frame extractor on the receive buffer.
+    pub fn verif_parse_frame(
+        &mut self,
+    ) -> Result<Option<BgpMsg<Bytes>>, ParseError> {
+        self.parse_frame()
+    }
+    /// Number of bytes currently held in the receive buffer.
+    pub fn verif_buffered(&self) -> usize {
+        self.buffer.len()
+    }
+    /// The configuration used to decode the peer's UPDATEs.
+    pub fn verif_session_config(&self) -> &SessionConfig {
+        &self.session_config
+    }
+}
+
+/// Snapshot of the parts of a Session the FSM acts on.
+#[cfg(nlnetlabs_routecore_verif)]
+#[derive(Clone, Copy, Debug, Eq, PartialEq)]
+pub struct VerifSnapshot {
+    pub connect_retry_timer_running: bool,
+    pub hold_timer_running: bool,
+    pub keepalive_timer_running: bool,
+    pub delay_open_timer_running: bool,
+    pub connect_retry_counter: usize,
+    pub has_connection: bool,
+}
+
+#[cfg(nlnetlabs_routecore_verif)]
+impl<C: BgpConfig + Send> Session<C> {
+    /// Feeds an arbitrary event to the transition function.
+    pub async fn verif_inject_event(
+        &mut self,
+        event: Event,
+    ) -> Result<(), Error> {
+        self.handle_event(event).await
+    }
+    /// Feeds a received message to the message handler.
+    pub async fn verif_handle_msg(
+        &mut self,
+        msg: BgpMsg<Bytes>,
+    ) -> Result<(), Error> {
+        self.handle_msg(msg).await
+    }
+    /// Forces the FSM into `state` (to enumerate (state, event) pairs).
+    pub fn verif_set_state(&mut self, state: State) {
+        self.set_state(state);
+    }
+    pub fn verif_attributes_mut(&mut self) -> &mut SessionAttributes {
+        self.attributes_mut()
+    }
+    pub fn verif_connection_mut(&mut self) -> Option<&mut Connection> {
+        self.connection.as_mut()
+    }
+    pub fn verif_start_delay_open_timer(&mut self) {
+        self.delay_open_timer.start();
+    }
+    pub fn verif_snapshot(&self) -> VerifSnapshot {
+        VerifSnapshot {
+            connect_retry_timer_running: self.connect_retry_timer.is_running(),
+            hold_timer_running: self.hold_timer.is_running(),
+            keepalive_timer_running: self.keepalive_timer.is_running(),
+            delay_open_timer_running: self.delay_open_timer.is_running(),
+            connect_retry_counter:
+                self.attributes.verif_connect_retry_counter(),
+            has_connection: self.connection.is_some(),
+        }
+    }
+}
+
 async fn maybe_read_frame(
     conn: Option<&mut Connection>,
 ) -> Option<Result<Option<BgpMsg<Bytes>>, Error>> {
